@@ -398,7 +398,7 @@ fn gen_directed(rng: &mut Rng, schema: &GenSchema) -> Option<GenQuery> {
     let mut fields = vec![g.prop_output(&root.target)];
     let ea = edges[g.rng.below(edges.len())].clone();
     let eb = edges[g.rng.below(edges.len())].clone();
-    let shape = g.rng.below(6);
+    let shape = g.rng.below(7);
     let inner_a = match g.rng.below(8) {
         0 => Inner::Output,
         1 | 2 => Inner::NestedOutput,
@@ -455,6 +455,47 @@ fn gen_directed(rng: &mut Rng, schema: &GenSchema) -> Option<GenQuery> {
             g.feat("shape:nested");
             let inner = if g.rng.chance(1, 2) { Inner::NestedOutput } else { Inner::NestedCountOutput };
             fields.push(g.fold(&ea, n_a, min_only_a, None, count_out_a, inner, None, None));
+        }
+        // S6: a lower-bound filter (>=, >) next to an exclusion filter (!=, not_one_of), both on variables
+        // with small operands, nothing observed inside (added after seeded change C22-5: an exclusion
+        // filter that no longer switches the min-fold-size shortcut off is evaluated on a truncated count)
+        6 => {
+            g.feat("shape:min-plus-exclusion");
+            let small = |g: &mut Directed, list: bool| {
+                let name = g.fresh("v");
+                let one = |g: &mut Directed| {
+                    let x = g.rng.below(4) as i64;
+                    if g.rng.chance(1, 2) { FieldValue::Int64(x) } else { FieldValue::Uint64(x as u64) }
+                };
+                let v = if list {
+                    let n = 1 + g.rng.below(2);
+                    FieldValue::List((0..n).map(|_| one(g)).collect::<Vec<_>>().into())
+                } else {
+                    one(g)
+                };
+                g.args.insert(name.clone(), v);
+                Arg::Var(name)
+            };
+            let lo = *g.rng.pick(&[Op::Ge, Op::Ge, Op::Gt]);
+            let ex = *g.rng.pick(&[Op::Neq, Op::NotOneOf]);
+            let a_lo = small(&mut g, false);
+            let a_ex = small(&mut g, ex == Op::NotOneOf);
+            g.feat(&format!("cf:{}", lo.proto()));
+            g.feat(&format!("cf:{}", ex.proto()));
+            g.feat("several-count-filters");
+            let mut fdirs = vec![FDir::CountFilter(lo, a_lo), FDir::CountFilter(ex, a_ex)];
+            if g.rng.chance(1, 2) {
+                fdirs.swap(0, 1);
+            }
+            if g.rng.chance(1, 4) {
+                let extra = g.count_filter(true, None);
+                fdirs.push(extra);
+            }
+            g.feat("fold");
+            let params = g.params_for(&ea);
+            let inner = if g.rng.chance(1, 6) { inner_a } else { Inner::NoOutput };
+            let node = g.inner_node(&ea.target, inner, None);
+            fields.push(Field::Edge { name: ea.name.clone(), params, kind: Kind::Fold(fdirs), node });
         }
         // S5: a single fold with several filters of any kind
         _ => {
